@@ -164,6 +164,11 @@ func walkToUnescapedChar(buf []byte, char byte, startAt int, isEscaped bool) int
 func scanMetricName(buf []byte, isEscaped bool) (endAt int, err error) {
 	// unescaped comma;
 	commaAt := walkToUnescapedChar(buf, ',', 0, isEscaped)
+	// NOTE: line without tags, the first unescaped comma is inside field set(multi fields), metric name ends at
+	// the unescaped space before that comma.
+	if spaceAt := walkToUnescapedChar(buf, ' ', 0, isEscaped); spaceAt > 0 && commaAt > spaceAt {
+		return spaceAt, nil
+	}
 	switch {
 	case commaAt == 0:
 		return -1, ErrMissingMetricName
